@@ -19,7 +19,7 @@ import lib
 import sim
 
 PID = "C10"
-PROPS = ["Aldy.Props.C10"]
+PROPS = ["Aldy.Props.C10", "Aldy.Props.C04Decision"]
 TRUSTED_EXTRA = ["the read simulator and pysam (sample generation)", "stage wrappers installed by attribute replacement in the harness process"]
 ASSUMPTIONS = ["scores whose 1000-fold lies within 1e-7 of an integer are excluded from the sort-key comparison (float truncation hazard)"]
 
